@@ -48,6 +48,7 @@ def gen(chk):
     g.one("sm4_tables", "tab.sm4")
     g.one("sm3_constants", "tab.sm3")
     g.one("curve_parameters", "tab.curve")
+    g.one("field_code_constants", "tab.fiat")
     sm4 = os.path.join(core.REPO, "sm4")
     com, cdefs = parse_data(os.path.join(sm4, "com_amd64.s"))
     asm, _ = parse_data(os.path.join(sm4, "asm_amd64.s"))
